@@ -14,9 +14,9 @@ const (
 	// LexCode marks SQL code: tokens and the white space between them. The line break
 	// that ends a -- comment is code as well.
 	LexCode LexClass = iota
-	// LexLiteral marks a byte of a '...' string literal, of a dollar-quoted string
-	// ($$...$$, $tag$...$tag$) or of a "..." or `...` quoted identifier, the delimiters
-	// included. The typographic quotes the tokenizer accepts delimit the quoted
+	// LexLiteral marks a byte of a '...' or '''...''' string literal, of a dollar-quoted
+	// string ($$...$$, $tag$...$tag$) or of a "..." or `...` quoted identifier, the
+	// delimiters included. The typographic quotes the tokenizer accepts delimit the quoted
 	// constructs as well (see quoteKind).
 	LexLiteral
 	// LexBlockComment marks a byte of a /* ... */ comment, the delimiters included.
@@ -38,6 +38,7 @@ const (
 	lexInBlock
 	lexInBlockClose // on the '/' of "*/"
 	lexInDollar     // inside a dollar-quoted string, after its opening delimiter
+	lexInTriple     // inside a triple-quoted string, after its opening '''
 )
 
 // quoteKind maps a quote character to the ASCII quote the tokenizer reads it as: the
@@ -83,8 +84,9 @@ func dollarOpener(s string) int {
 // LexMap classifies every byte of text in a single pass. The scanner state is carried
 // across line breaks, so the second line of a multi-line string literal or block comment
 // is not mistaken for code. Inside a quoted construct a doubled quote character is part
-// of the content (the scanner closes the construct and re-opens it at once); block
-// comments do not nest. Like the tokenizer, the scanner lets every quote character of a
+// of the content (in a quoted identifier the scanner closes the construct and re-opens it
+// at once; in a string literal it reads the two quotes together, so that the second one
+// is never taken for the start of a triple quote); block comments do not nest. Like the tokenizer, the scanner lets every quote character of a
 // kind (see quoteKind) open and close a construct of that kind. A backslash is an
 // ordinary character: the text rules have always read a backslash-escaped quote as the
 // end of the literal, and their tests pin that reading. Bytes that are not valid UTF-8
@@ -95,6 +97,11 @@ func dollarOpener(s string) int {
 // quotes, comment openers and line breaks inside it are content, and one that is never
 // closed runs to the end of the text.
 //
+// Three apostrophes in a row, where a string literal may begin, open a triple-quoted
+// string, as in the tokenizer: it ends at the next three apostrophes in a row, so single
+// and doubled apostrophes and line breaks inside it are content, and one that is never
+// closed runs to the end of the text.
+//
 // The result has len(text)+1 entries: entry i is the class of text[i], the last entry is
 // the context at the end of the text (LexCode when no literal or block comment is open).
 func LexMap(text string) []LexClass {
@@ -103,6 +110,7 @@ func LexMap(text string) []LexClass {
 	var (
 		closing string // inside a dollar-quoted string: its closing delimiter, "$tag$"
 		matched int    // how many bytes of closing the characters just read have matched
+		run     int    // inside a triple-quoted string: the apostrophes just read in a row
 	)
 	for i := 0; i < len(text); {
 		r, size := rune(text[i]), 1
@@ -114,6 +122,12 @@ func LexMap(text string) []LexClass {
 		switch st {
 		case lexInCode:
 			switch {
+			case r == '\'' && i+2 < len(text) && text[i+1] == '\'' && text[i+2] == '\'':
+				// the opening ''' as a whole
+				m[i], m[i+1], m[i+2] = LexLiteral, LexLiteral, LexLiteral
+				run, st = 0, lexInTriple
+				i += 3
+				continue
 			case q == '\'':
 				cls, st = LexLiteral, lexInSingle
 			case q == '"':
@@ -138,12 +152,20 @@ func LexMap(text string) []LexClass {
 		case lexInSingle:
 			cls = LexLiteral
 			if q == '\'' {
-				st = lexInCode // a doubled quote re-opens the literal at once
+				if next, nsize := utf8.DecodeRuneInString(text[i+size:]); quoteKind(next) == '\'' {
+					// a doubled quote as a whole: content
+					for k := 0; k < size+nsize; k++ {
+						m[i+k] = LexLiteral
+					}
+					i += size + nsize
+					continue
+				}
+				st = lexInCode
 			}
 		case lexInDouble:
 			cls = LexLiteral
 			if q == '"' {
-				st = lexInCode
+				st = lexInCode // a doubled quote re-opens the identifier at once
 			}
 		case lexInBackquote:
 			cls = LexLiteral
@@ -178,6 +200,13 @@ func LexMap(text string) []LexClass {
 				matched = 1
 			} else {
 				matched = 0
+			}
+		case lexInTriple:
+			cls = LexLiteral
+			if r != '\'' {
+				run = 0
+			} else if run++; run == 3 {
+				st = lexInCode
 			}
 		}
 		for k := 0; k < size; k++ {
